@@ -358,7 +358,7 @@ func checkC08(tier, replay string) int {
 		"closed by a sentinel and quit; the strict decoders consume the whole reply stream of the connection and attribute every frame (opaque) / line (order); " +
 		"plus single requests whose reply is awaited without sending anything else. " +
 		"distinct_nontrivial = distinct (configuration, protocol, mode, op-kind sequence) containing at least one failing or multi-key request")
-	npipe := run.Pick(8, 150)
+	npipe := run.Pick(21, 240)
 	cfgs := c01Configs(run.Thorough())
 	proxyPool(run, cfgs, 12, func(p *harness.Proxy, restart func() *harness.Proxy) {
 		cfg := p.Cfg
